@@ -135,7 +135,7 @@ def step (s : DS) (line : String) : DS × String :=
     if !s.ready then (s, "bad-op") else
     match (splitItems rest).mapM item? with
     | some items =>
-      let s' := items.foldl applyItem s
+      let s' := items.foldl applyItem { s with wf := s.wf && recOk items }
       (s', table s')
     | none => (s, "bad-op")
   | _ => (s, "bad-op")
